@@ -4,6 +4,13 @@ import json
 props=[json.loads(l) for l in open('/verif/properties.jsonl')]
 # id -> (technique, level text, level note)
 CLAIMED={
+ 'C09':("exhaustive language enumeration (LANG): every AST of a bounded grammar fragment in every rendering variant, every token string up to a length bound, every single-token corruption, against an independent three-valued parser",
+        "~8k ASTs x all spacing/case/quoting variants must parse to the intended structure and survive print->parse; every token string of length<=4/5 over 36 tokens and every single-token corruption judged by the core/liberal model grammars; never a panic",
+        "bounded AST size and token-string length; inputs between the core and liberal grammars are not judged"),
+ 'C16':("exhaustive language enumeration (LANG) for key paths against an independent three-valued parser",
+        "every list of <=3 elements in all spacing variants, every token string of length<=6/7 over 14 tokens, every single-token corruption; print->parse",
+        "bounded list length and token-string length"),
+
  'C11':("exhaustive enumeration of inputs x configurations (all 2^k text/binary choices), relational oracle",
         "every text of the corpus through every document-taking function in text and binary form with every derived argument; all four configurations for two-document functions on every ordered pair of a subset",
         "bounded corpus; what a text denotes is decided by the model parser"),
